@@ -361,7 +361,7 @@ func runV1Compare(c *mon.Ctx, pc progCase, name string) {
 	}
 	prog := &ref.Program{Scripts: map[string][]*gt.T{name: pc.Stmts}, Funcs: ref.ProbeFuncs()}
 	lb, nested := nestedAssign(pc.Stmts)
-	for _, mp := range pc.Points {
+	for pi, mp := range pc.Points {
 		model := mp.Clone()
 		mo := ref.Run(prog, name, model, modelBudget)
 		if mo.TooBig {
@@ -393,6 +393,9 @@ func runV1Compare(c *mon.Ctx, pc progCase, name string) {
 		cs["point"] = mp.Show()
 		if r := compareRun(ro, mo, cmpOpts{Point: model, RealPoint: real}); r != nil {
 			c.Violate(r.Class, fmt.Sprintf("%s\n--- program\n%s--- point\n%s", r.Detail, pc.Src, mp.Show()), cs)
+			return
+		}
+		if pi == 0 && !againV1(c, script, name, pc.Src, mp, model, mo, true, "", cs) {
 			return
 		}
 		if c.WantSample() && len(mo.Events) >= 4 && len(pc.Src) < 500 && mo.Unspecified == "" {
